@@ -25,6 +25,7 @@ class Exprs:
         self.body = fn.body
         self.memo = {}
         self.range_items = {}
+        self.len_floor = {}      # item var of chunks(n) / windows(n) / chunks_exact(n) -> minimum length
         self.def_blocks = {}     # term var local -> blocks of the temps expanded to reach it
 
     def ty(self, local):
@@ -109,6 +110,25 @@ class Exprs:
                 blk = self.body.single_def(l)[0]
                 self.range_items[item] = (r0[1], r0[2], blk)
                 return ("some", item)
+            # slices handed out by chunks(n) are never empty; windows(n) / chunks_exact(n) have n elements
+            src = None
+            if a[0] == "var" and isinstance(a[1], int):
+                ds = [x for x in self.body.defs().get(a[1], []) if not self.body.is_cleanup(x[0])]
+                if len(ds) == 1 and ds[0][1] == "T":
+                    src = ds[0][2]
+                    if (src.get("cpath") or "").split("::")[-1] in ("into_iter", "iter") and src["args"]:
+                        p0 = mir.op_place(src["args"][0])
+                        d0 = self.body.single_def(p0[0]) if p0 is not None and not p0[1] else None
+                        src = d0[2] if d0 is not None and d0[1] == "T" else None
+            if src is not None:
+                nm = (src.get("cpath") or "").split("::")[-1]
+                if nm in ("chunks", "chunks_exact", "windows", "rchunks") and "slice" in (src.get("cpath") or ""):
+                    k = (src["args"][1].get("k") or {}) if len(src["args"]) > 1 else {}
+                    item = ("var", ("item", l))
+                    floor = k.get("int") if nm in ("chunks_exact", "windows") and isinstance(k.get("int"), int) else 1
+                    if isinstance(k.get("int"), int) and k["int"] >= 1:
+                        self.len_floor[item] = floor
+                        return ("some", item)
         if name in ("clone", "deref", "as_ref", "borrow", "as_slice", "as_mut_slice", "deref_mut") and len(args) == 1:
             return self.of_operand(args[0], depth + 1)
         return ("var", l)
@@ -300,6 +320,10 @@ class Prover:
                 f.assume_bool(mk_not(mk_lt(item, lo)), True)
                 f.assume_bool(mk_lt(item, hi), True)
                 used.append((mk_lt(item, hi), True))
+        for item, floor in self.ex.len_floor.items():
+            ln = ("len", item)
+            f.assume_bool(mk_lt(C(floor - 1), ln), True)
+            used.append((mk_lt(C(floor - 1), ln), True))
         g = f.copy()
         ok = not g.assume_bool(goal, not goal_value)
         return ok, used
